@@ -160,6 +160,10 @@ fn gen_e4(rng: &mut Rng) -> J {
     sc.replications = Some(*rng.pick(&[1u64, 2, 5]));
     sc.steps = Some(*rng.pick(&[1u64, 20, 100]));
     sc.convergence = None;
+    // a third of the label runs are handed a valid start configuration of another group
+    if rng.chance(0.33) && sc.valid_args() {
+        sc.fault = "start-config-other-group".into();
+    }
     sc.to_json().set("mode", J::str("labels"))
 }
 
@@ -172,6 +176,7 @@ fn exec_e4(j: &J) -> Result<RunOut, String> {
     out.nontrivial = true;
     out.sample = Some(r.sample());
     out.count(&format!("probe.cli_group/{}", sc.group), 1);
+    out.count("fault.F-args(start configuration of another group supplied)", (sc.fault == "start-config-other-group") as u64);
     out.count(&format!("probe.cli_shape/{}", sc.shape), 1);
     if r.code != Some(0) {
         // success/failure of the process is C20's subject; without output there is nothing to label
